@@ -510,6 +510,12 @@ def recover (d : Disk) (bigs : List Coin) : Except String St :=
     | some e => .error e
     | none => .ok s
 
+/-- GHOST (never read by the model): did the client's restart on `d` — successful or not — read an undo file of another block? -/
+def recoverForeign (d : Disk) (bigs : List Coin) : Bool :=
+  match openNode d bigs 0 with
+  | .error _ => false
+  | .ok s => (clientRecover s).foreign
+
 /-! ### workloads -/
 
 inductive Op
@@ -523,7 +529,7 @@ def step (s : St) : Op → St
   | .reopen =>
     if s.err.isSome then s else
     match recover s.d s.n.bigs with
-    | .error e => s.fail e
+    | .error e => { (s.fail e) with foreign := s.foreign || recoverForeign s.d s.n.bigs }   -- ghost flag survives a failed restart
     | .ok s' => { s' with es := s.es ++ s'.es, foreign := s.foreign || s'.foreign, n := { s'.n with skip := s.n.skip, pause := s.n.pause } }
   | .skip k => { s with n := { s.n with skip := k } }
   | .pause b => { s with n := { s.n with pause := b } }
